@@ -76,9 +76,8 @@ def _dt(draw):
     d = datetime.datetime(2000, 1, 1) + datetime.timedelta(
         days=draw(st.integers(0, 12000)), seconds=draw(st.integers(0, 86399)), microseconds=draw(st.sampled_from([0, 0, 1, 500000, 999999]))
     )
-    if draw(st.booleans()):
-        return d.isoformat() + "+00:00"
-    return d.isoformat()
+    tz = draw(st.sampled_from(["", "", "+00:00", "+00:00", "+02:00", "-05:30"]))
+    return d.isoformat() + tz
 
 
 @st.composite
